@@ -33,12 +33,14 @@ package exif2
 //@ func (*ifdReader).ParseUint16
 //@   props C07 C03 C01
 //@   requires ir.buffer != nil
+//@   modifies ir.buffer.buf
 //@   ensures [C07 C03] t.IsEmbedded() && t.Type == tag.TypeShort ==> r0 == slotShort0(t.ValueOffset, t.ByteOrder)
 //@   ensures [C07 C03] !(t.IsEmbedded() && t.Type == tag.TypeShort) ==> r0 == 0
 
 //@ func (*ifdReader).ParseUint32
 //@   props C07 C03 C01
 //@   requires ir.buffer != nil
+//@   modifies ir.buffer.buf
 //@   ensures [C07 C03] t.Type == tag.TypeLong ==> r0 == t.ValueOffset
 //@   ensures [C07 C03] t.Type == tag.TypeShort ==> r0 == uint32(slotShort0(t.ValueOffset, t.ByteOrder))
 //@   ensures [C07 C03] t.Type != tag.TypeLong && t.Type != tag.TypeShort ==> r0 == 0
@@ -46,6 +48,7 @@ package exif2
 //@ func (*ifdReader).ParseGPSRef
 //@   props C07 C03 C01
 //@   requires ir.buffer != nil
+//@   modifies ir.buffer.buf
 //@   ensures [C07 C03] t.IsEmbedded() && t.ID == gpsifd.GPSAltitudeRef ==> r0 == (t.Type == tag.TypeByte && slotByte0(t.ValueOffset, t.ByteOrder) == 1)
 //@   ensures [C07 C03] t.IsEmbedded() && t.ID == gpsifd.GPSLatitudeRef ==> r0 == (t.Type == tag.TypeASCII && slotByte0(t.ValueOffset, t.ByteOrder) == 'S')
 //@   ensures [C07 C03] t.IsEmbedded() && t.ID == gpsifd.GPSLongitudeRef ==> r0 == (t.Type == tag.TypeASCII && slotByte0(t.ValueOffset, t.ByteOrder) == 'W')
@@ -264,3 +267,9 @@ package exif2
 //@   props C01 C02
 //@   entry
 //@   requires r != nil
+
+// A user-supplied tag parser (SetCustomTagParser) is code outside the module. ASSUMED: it acts on the reader only through the
+// TagParser methods it is handed (the Parse* value decoders above), so its effect is bounded by theirs.
+//@ dep callback exif2.ifdReader.customTagParser
+//@   names p t -> err
+//@   modifies ir.po, stream(ir.reader), ir.buffer.buf, ir.Exif
